@@ -125,7 +125,8 @@ func Compress(msg *pb.XuperMessage) *pb.XuperMessage {
 
 // Decompress decompress msg
 func Decompress(msg *pb.XuperMessage) ([]byte, error) {
-	if msg == nil || msg.Header == nil || msg.Data == nil || msg.Data.MsgInfo == nil {
+	// MsgInfo is nil after the wire round trip of a payload that encodes to zero bytes
+	if msg == nil || msg.Header == nil || msg.Data == nil {
 		return []byte{}, errors.New("param error")
 	}
 
